@@ -560,6 +560,25 @@ def _const_value(prog, m, e):
 
 
 
+def _model_bindings(spec, xc, yc, xs, ys):
+    """sub-terms of the wrapper bound to their values on the model raster with x coordinates xs and y coordinates ys"""
+    from ..wterm import key
+    bound = {}
+    for nm_, arr in (('xc', xs), ('yc', ys)):
+        for text, val in (('%s.min()', min(arr)), ('%s.max()', max(arr)), ('%s[0]', arr[0]), ('%s[-1]', arr[-1]), ('%s[1]', arr[1]),
+                          ('%s.size', len(arr)), ('%s.shape[0]', len(arr)), ('len(%s)', len(arr)), ('np.min(%s)', min(arr)),
+                          ('np.max(%s)', max(arr)), ('np.nanmin(%s)', min(arr)), ('np.nanmax(%s)', max(arr))):
+            bound[key(spec(text % nm_, xc=xc, yc=yc))] = Fraction(val)
+    for text, val in (('raster.shape[0]', len(ys)), ('raster.shape[1]', len(xs)), ('raster.sizes["y"]', len(ys)), ('raster.sizes["x"]', len(xs)),
+                      ('len(raster.y)', len(ys)), ('len(raster.x)', len(xs)), ('raster.values.shape[0]', len(ys)),
+                      ('raster.values.shape[1]', len(xs)), ('raster.data.shape[0]', len(ys)), ('raster.data.shape[1]', len(xs))):
+        try:
+            bound[key(spec(text))] = Fraction(val)
+        except Exception:      # noqa - a spelling the term builder does not take is simply not bound
+            pass
+    return bound
+
+
 def _model_cells(got, dim, spec, xc, yc, P):
     """([(dim, coords, dim, value, expected index, computed)] on evenly spaced models, same on an irregular model) for the
     observer-cell term `got`; None when the term cannot be evaluated on the models"""
@@ -568,24 +587,14 @@ def _model_cells(got, dim, spec, xc, yc, P):
               ('x', [1, 2, 4, 8, 16], False)]
     ymodels = [[100, 75, 50, 25], [25, 50, 75, 100], [-3, -2, -1, 0, 1, 2], [32, 16, 8, 4]]
     bad_even, bad_uneven = [], []
+    if got == 'models':
+        return [(xs, ys, even) for (_, xs, even), ys in zip(models, ymodels)]
     for (_, xs, even), ys in zip(models, ymodels):
         cs = ys if dim == 'y' else xs
         probes = sorted(set(cs) | {(3 * a_ + b_) / 4 for a_, b_ in zip(cs, cs[1:])} | {(a_ + 3 * b_) / 4 for a_, b_ in zip(cs, cs[1:])})
         for v in probes:
             other = (xs if dim == 'y' else ys)[1]
-            bound = {}
-            for nm_, arr in (('xc', xs), ('yc', ys)):
-                for text, val in (('%s.min()', min(arr)), ('%s.max()', max(arr)), ('%s[0]', arr[0]), ('%s[-1]', arr[-1]), ('%s[1]', arr[1]),
-                                  ('%s.size', len(arr)), ('%s.shape[0]', len(arr)), ('len(%s)', len(arr)), ('np.min(%s)', min(arr)),
-                                  ('np.max(%s)', max(arr)), ('np.nanmin(%s)', min(arr)), ('np.nanmax(%s)', max(arr))):
-                    bound[key(spec(text % nm_, xc=xc, yc=yc))] = Fraction(val)
-            for text, val in (('raster.shape[0]', len(ys)), ('raster.shape[1]', len(xs)), ('raster.sizes["y"]', len(ys)), ('raster.sizes["x"]', len(xs)),
-                              ('len(raster.y)', len(ys)), ('len(raster.x)', len(xs)), ('raster.values.shape[0]', len(ys)),
-                              ('raster.values.shape[1]', len(xs)), ('raster.data.shape[0]', len(ys)), ('raster.data.shape[1]', len(xs))):
-                try:
-                    bound[key(spec(text))] = Fraction(val)
-                except Exception:      # noqa - a spelling the term builder does not take is simply not bound
-                    pass
+            bound = _model_bindings(spec, xc, yc, xs, ys)
             env = {'x': Fraction(v) if dim == 'x' else Fraction(other), 'y': Fraction(v) if dim == 'y' else Fraction(other), '__terms__': bound}
             try:
                 r = eval_term(got, env)
@@ -692,6 +701,27 @@ def check_wrapper(prog, rep, m, entry):
                     ok, why = True, 'agrees with nearest-coordinate selection on every model raster'
         rep.add('T8', cpu, entry, '%s = index of the nearest %s coordinate' % (prm, dim), line, ok,
                 'the observer stands on the cell whose centre is nearest (row from y, column from x); ' + why)
+    # T8-range: an observer anywhere inside the raster's extent is accepted, one outside is rejected - whichever way the
+    # coordinates run.  The conditions under which the wrapper raises are evaluated on the model rasters.
+    from ..wterm import eval_cond, mentions
+    xy = [g_ for g_ in w.raises if any(mentions(c_, P.get(d_, ('param', d_))) for c_ in g_[0] for d_ in ('x', 'y'))]
+    okr, whyr = (None, 'no rejection depending on x / y found') if not xy else (True, '')
+    try:
+        for xs_, ys_, even_ in (_model_cells('models', 'x', spec, xc, yc, P) if xy else ()):
+            bound_ = _model_bindings(spec, xc, yc, xs_, ys_)
+            for dim_, cs_, oth_ in (('x', xs_, ys_), ('y', ys_, xs_)):
+                lo_, hi_ = min(cs_), max(cs_)
+                for v_ in (lo_, hi_, (lo_ + hi_) / 2, lo_ + (hi_ - lo_) / 7, Fraction(lo_) - Fraction(1, 2), Fraction(hi_) + Fraction(1, 2)):
+                    env_ = {dim_: Fraction(v_), ('y' if dim_ == 'x' else 'x'): Fraction(oth_[1]), '__terms__': bound_}
+                    rejected = any(all(eval_cond(c_, env_) for c_ in g_[0]) for g_ in xy)
+                    if rejected != (not lo_ <= v_ <= hi_) and okr:
+                        okr, whyr = False, 'on a raster with x coordinates %s and y coordinates %s an observer at %s is %s' % (
+                            xs_, ys_, ', '.join('%s=%s' % kv for kv in sorted(env_.items()) if kv[0] != '__terms__'),
+                            'rejected although it lies inside the extent' if rejected else 'accepted although it lies outside')
+    except (ValueError, KeyError, TypeError, ZeroDivisionError) as e_:
+        okr, whyr = None, 'rejection conditions not evaluable: %s' % e_
+    rep.add('T8', cpu, entry, 'observer positions accepted: exactly those inside the coordinate extent', line, okr,
+            'the extent is [min, max] of the coordinates, which may run either way (rows of a north-up raster run from the largest y down); ' + whyr)
     # T10: observer elevation widened before the addition; float64 terrain; target height
     oname = next((p for p in cpu.params if 'observer' in p or p == 'observer_elev'), None)
     got = b.get('vp_elev')
@@ -728,6 +758,13 @@ def check_wrapper(prog, rep, m, entry):
     ok = key(got) == key(want) if got is not None else None
     if got is not None and not ok:
         ok = False if key(got) == key(spec('raster.values')) else None
+        if isinstance(got, tuple) and got[0] == 'cast' and key(got[1]) == key(spec('raster.values')):
+            # the terrain cast to a dtype named by value: float64 in any spelling is the documented widening, any other
+            # named dtype (float32: 1000.7 is not representable, near-ties flip) is not
+            F64 = {key(spec(t_)) for t_ in ('np.float64', 'float', "'f8'", "'float64'", "'d'", 'np.double', "np.dtype('float64')", "np.dtype(np.float64)")}
+            OTHER = {key(spec(t_)) for t_ in ('np.float32', "'f4'", "'float32'", "'f'", 'np.single', 'np.float16', 'np.int64', 'np.int32', 'int',
+                                              "np.dtype('float32')", "np.dtype(np.float32)")}
+            ok = True if key(got[2]) in F64 else (False if key(got[2]) in OTHER else None)
     rep.add('T10', cpu, entry, 'kernels receive float64 terrain', line, ok,
             'the event generation and the sweep work on float64 values; got %s' % (tshow(got, 120) if got is not None else None))
     # T6: the remaining kernel arguments are the arrays the event pass filled
